@@ -398,6 +398,9 @@ func rulesC05(e *Engine, r *Report) {
 	e.checkCurrentVersionFinalized(r, "R05.12")
 	// ---------------------------------------------------------------- R05.13
 	e.shareRule(r, "C18", "R18.6", "R05.13", "a delivery is on record where the refill will read it: the receive log re-opens its day file when the file has vanished from its path (log housekeeping), so records of later deliveries do not go to an unlinked inode - after a restart those deliveries would be unknown and their retransmissions delivered again")
+	// ---------------------------------------------------------------- R05.14
+	r.Rule("R05.14", "a late part cannot touch a file that has moved on: every write into a staged partial (io.Copy / Write / Truncate on a handle opened on <path>.part) is made while the lock of <path> is held, in the function itself or by every caller - completion, validation and delivery (a rename: same inode) run under the exclusive lock, so a write outside it continues through its handle into the validated or delivered file")
+	e.checkStagedWritesUnderLock(r, "R05.14")
 }
 
 func nameOr(m map[string]string, k string) string {
